@@ -86,6 +86,12 @@ def run(tier):
                         mjobs.append({"N": N, "m": m, "list": list(lst) if lst is not None else None, "conn": conn, "prep": prep, "what": "tomo", "codes": None})
                     codes = impl.remix(impl.apply_gates_codes(impl.random_local_layer(m, rng), impl.graph_gens(m, rng.randrange(1 << (m * (m - 1) // 2)))), rng)
                     mjobs.append({"N": N, "m": m, "list": list(lst) if lst is not None else None, "conn": conn, "prep": prep, "what": "stab", "codes": codes})
+    # the same requests with a two-register preparation circuit and the qubits given as Qubit objects (documented form)
+    extra = []
+    for j in mjobs:
+        if j["list"] is not None and j["N"] >= 3 and rng.random() < 0.35:
+            extra.append(dict(j, registers=rng.randrange(1, j["N"] - 1) if j["N"] > 2 else 1))
+    mjobs += extra
     core.dbg("meas jobs", len(mjobs))
     res = par.pmap(workers.meas_circuits, mjobs)
     mtraces = []
@@ -109,6 +115,7 @@ def run(tier):
         else:
             ck.accepted()
     ck.cov["measurement_circuits"] = len(mtraces)
+    ck.cov["requests_with_qubit_objects_on_two_registers"] = len(extra)
     ck.cov["asymmetric_lists"] = sum(1 for t in mtraces if t["list"] != sorted(t["list"]))
     ck.sample({k: mtraces[-1][k] for k in ("kind", "n", "m", "list", "conn", "preplen", "gates", "measures")})
     ck.sample({k: traces[-1][k] for k in ("kind", "n", "conn", "target", "gates")})
